@@ -41,6 +41,27 @@ def replace_code(c, **kw):
                           a["co_freevars"], a["co_cellvars"])
 
 
+def structured_alterations(b, known):
+    """header alterations aimed at the decoder's case analysis: both function flags cleared / set at once, pairs of
+    kind flags, with and without changed argument counts"""
+    val = dict(known)
+    fn = val.get("OPTIMIZED", 0) | val.get("NEWLOCALS", 0)
+    kinds = [val[k] for k in ("GENERATOR", "COROUTINE", "ASYNC_GENERATOR", "ITERABLE_COROUTINE") if k in val]
+    words = [b.co_flags & ~fn, b.co_flags | fn, (b.co_flags & ~fn) | val.get("NOFREE", 0), val.get("NOFREE", 0), 0, fn]
+    for i, k1 in enumerate(kinds):
+        for k2 in kinds[i + 1:]:
+            words.append(b.co_flags | k1 | k2)
+            words.append(b.co_flags | fn | k1 | k2)
+    out = []
+    for w in words:
+        out.append(({"co_flags": w}, "flags %#x" % w))
+        out.append(({"co_flags": w, "co_argcount": b.co_argcount + 1}, "flags %#x, one more argument" % w))
+        if b.co_argcount:
+            out.append(({"co_flags": w, "co_argcount": 0}, "flags %#x, no positional argument" % w))
+        out.append(({"co_flags": w, "co_kwonlyargcount": b.co_kwonlyargcount + 1}, "flags %#x, one more keyword-only argument" % w))
+    return out
+
+
 def work(ctx):
     from code_data import CodeData
     from code_data._flags_data import _CodeFlag, from_flags_data, to_flags_data
@@ -162,6 +183,10 @@ def work(ctx):
             check_header_safe = call(replace_code, b, co_flags=b.co_flags ^ v)
             if check_header_safe[0] == "ok":
                 check_header(check_header_safe[1], "%s with flag %s toggled" % (nm, n))
+        for kw, label in structured_alterations(b, known):
+            k = call(replace_code, b, **kw)
+            if k[0] == "ok":
+                check_header(k[1], "%s with %s" % (nm, label))
         for u in unknown_bits[:8]:
             k = call(replace_code, b, co_flags=b.co_flags | u)
             if k[0] == "ok":
@@ -181,3 +206,24 @@ def work(ctx):
                 check_header(k[1], "%s with %r" % (nm, sorted(kw.items())))
             else:
                 ctx.count("header:constructor-rejects")
+
+    # ---- the same rule with assert statements compiled away (python -O): a guard that is an assert is no guard there
+    import json
+    import os
+    import subprocess
+    script = os.path.join(os.path.dirname(os.path.abspath(__file__)), "c11_opt.py")
+    p = subprocess.run([sys.executable, "-O", script, str(ctx.seed if hasattr(ctx, "seed") else 0), "quick" if ctx.quick else "thorough"],
+                       stdout=subprocess.PIPE, stderr=subprocess.PIPE, universal_newlines=True, timeout=1200)
+    try:
+        rep = json.loads(p.stdout.strip().splitlines()[-1])
+    except Exception:  # noqa
+        raise RuntimeError("python -O sub-run failed: rc=%s %s" % (p.returncode, p.stderr[-500:]))
+    ctx.count("optimized-run:cases", rep["counts"]["cases"])
+    ctx.count("optimized-run:raises", rep["counts"]["raises"])
+    ctx.count("optimized-run:exact", rep["counts"]["exact"])
+    if rep["assert_active"]:
+        raise RuntimeError("python -O sub-run still has asserts")
+    for f in rep["findings"]:
+        ctx.evaluated(("opt", f["what"]))
+        ctx.violation("header-lost-under-O", "python -O: %s: %s is %s after the round trip, was %s" % (f["what"], f["field"], f["now"], f["was"]),
+                      {"what": f["what"], "field": f["field"], "optimize": True})
